@@ -1266,5 +1266,380 @@ pub broadcast proof fn lemma_deque_len_fits<T: Wire>(v: VecDeque<T>)
             proof { lemma_concat_take_step(self@, __it.index@ as int); }
 //@ end
 
+
+// ---------------------------------------------------------------- HashMap / HashSet: count + entries in ITERATION order
+// The byte image of a hash collection is not a function of the value (it depends on the iteration order), so these
+// impls cannot be checked against Encode / Decode's functional `Wire::bytes` contract. They are checked against
+// relational contract traits (header-sub rewrites `Encode for` / `Decode for` in the impl header):
+//   * encode appends the count and the images of the entries in SOME duplicate-free enumeration of the keys;
+//   * decode, on input that starts with the image of ANY entry sequence s, consumes exactly that image and returns the
+//     map built by inserting, in order, entries whose images equal those of s (image equality as in `decodes_to`).
+// Round trip (lemma_hashmap_roundtrip / lemma_hashset_roundtrip): when element images are injective, decoding any
+// admissible image of m yields a collection with view m.
+use vstd::std_specs::hash::*;
+use vstd::std_specs::iter::IteratorSpec;
+use std::hash::{BuildHasher, Hash};
+
+pub open spec fn is_order<K, V>(ks: Seq<K>, m: Map<K, V>) -> bool {
+    ks.no_duplicates() && (forall|k: K| ks.contains(k) <==> m.contains_key(k))
+}
+pub open spec fn entries<K, V>(m: Map<K, V>, ks: Seq<K>) -> Seq<(K, V)> { ks.map_values(|k: K| (k, m[k])) }
+/// the map built by inserting the entries in order
+pub open spec fn map_of<K, V>(s: Seq<(K, V)>) -> Map<K, V>
+    decreases s.len()
+{
+    if s.len() == 0 { Map::empty() } else { map_of(s.drop_last()).insert(s.last().0, s.last().1) }
+}
+pub open spec fn map_decodes_to<K: Wire, V: Wire>(before: Seq<u8>, r: Option<Map<K, V>>, after: Seq<u8>) -> bool {
+    forall|s: Seq<(K, V)>, tail: Seq<u8>| #![trigger seq_bytes(s) + tail] (before == seq_bytes(s) + tail && s.len() <= usize::MAX) ==>
+        (r matches Some(w) && after == tail && exists|g: Seq<(K, V)>| #[trigger] map_of(g) == w && seq_bytes(g) == seq_bytes(s))
+}
+pub trait MapEncode<K: Wire, V: Wire> {
+    spec fn mview(&self) -> Map<K, V>;
+    spec fn hasher_ok() -> bool;
+    fn encode<E: Encoder + ?Sized>(&self, encoder: &mut E, plugin: &Plugin, session: &mut Session) -> (r: io::Result<()>)
+        requires obeys_key_model::<K>(), Self::hasher_ok()
+        ensures r is Ok ==> exists|ks: Seq<K>| #![trigger is_order(ks, self.mview())] is_order(ks, self.mview()) && ks.len() <= usize::MAX
+            && final(encoder).out() =~= old(encoder).out() + seq_bytes(entries(self.mview(), ks));
+}
+pub trait MapDecode<K: Wire, V: Wire>: Sized {
+    spec fn mview(&self) -> Map<K, V>;
+    spec fn hasher_ok() -> bool;
+    fn decode<D: Decoder + ?Sized>(decoder: &mut D, plugin: &Plugin, session: &mut Session) -> (r: io::Result<Self>)
+        requires obeys_key_model::<K>(), Self::hasher_ok()
+        ensures map_decodes_to::<K, V>(old(decoder).rest(), match r { Ok(w) => Some(w.mview()), Err(_) => None }, final(decoder).rest());
+}
+/// std (trusted): an empty map with the given hasher
+pub assume_specification<K, V, S>[ HashMap::<K, V, S>::with_capacity_and_hasher ](capacity: usize, hasher: S) -> (r: HashMap<K, V, S>)
+    ensures r@ == Map::<K, V>::empty();
+
+//@ impl crates/serialize/src/encode.rs :: impl<K: Encode, V: Encode, S: BuildHasher> Encode for HashMap<K, V, S>
+//@ header-sub Encode for HashMap<K, V, S> => MapEncode<K, V> for HashMap<K, V, S>
+//@ extra
+    open spec fn mview(&self) -> Map<K, V> { self@ }
+    open spec fn hasher_ok() -> bool { builds_valid_hashers::<S>() }
+//@ member encode
+//@ head
+        broadcast use lemma_concat_take_step, lemma_take_all, lemma_cat_empty, lemma_cat_assoc;
+        broadcast use group_hash_axioms;
+        let ghost mut order: Seq<K> = Seq::empty();
+//@ loop 0 iter __it
+//@ loop 0 itercall
+//@ loop 0 inv
+            invariant
+                obeys_key_model::<K>(), builds_valid_hashers::<S>(),
+                order.len() == __it.index@,
+                order =~= __it.snapshot@.remaining().take(__it.index@ as int).map_values(|kv: (&K, &V)| *kv.0),
+                order.no_duplicates(),
+                forall|k: K| order.contains(k) ==> self@.contains_key(k),
+                encoder.out() =~= old(encoder).out() + leb(self@.len()) + concat(entries(self@, order)),
+                __it.index@ == __it.snapshot@.remaining().len() ==> (forall|k: K| self@.contains_key(k) ==> order.contains(k)),
+                __it.snapshot@.remaining().len() == self@.len(), self@.len() <= usize::MAX,
+//@ loop 0 head
+            let ghost order0 = order;
+            let ghost out0 = encoder.out();
+            proof { order = order0.push(*key); }
+            proof {
+                let rem = __it.snapshot@.remaining();
+                let i = __it.index@ as int;
+                assert(*rem[i].0 == *key && *rem[i].1 == *value);
+                assert(self@.contains_key(*key) && self@[*key] == *value);
+                assert forall|j: int| 0 <= j < i implies order0[j] != *key by {
+                    assert(order0[j] == *rem.take(i)[j].0);
+                    if order0[j] == *key { assert(*rem[j].1 == self@[*rem[j].0]); assert(rem[j] == rem[i]); }
+                }
+                assert(rem.take(i + 1) =~= rem.take(i).push(rem[i]));
+                assert(entries(self@, order) =~= entries(self@, order0).push((*key, *value)));
+                lemma_concat_push(entries(self@, order0), (*key, *value));
+                assert forall|k: K| i + 1 == rem.len() && self@.contains_key(k) implies order.contains(k) by {
+                    assert(rem.take(i + 1) =~= rem);
+                    let w = choose|w: int| 0 <= w < rem.len() && *(#[trigger] rem[w]).0 == k;
+                    assert(order[w] == k);
+                }
+            }
+//@ loop 0 tail
+            proof {
+                assert(encoder.out() =~= out0 + (*key, *value).bytes());
+            }
+//@ loop 0 after
+        proof {
+            assert(is_order(order, self@));
+            assert(order.len() == self@.len() && entries(self@, order).len() == order.len());
+            assert(seq_bytes(entries(self@, order)) =~= leb(self@.len()) + concat(entries(self@, order)));
+            assert(encoder.out() =~= old(encoder).out() + seq_bytes(entries(self@, order)));
+            assert(is_order(order, self.mview()) && order.len() <= usize::MAX);
+        }
+//@ end
+
+
+/// decoding a key and then a value is decoding the pair (images concatenate; the key decoder is exact)
+pub proof fn lemma_pair_decodes<K: Wire, V: Wire>(b0: Seq<u8>, rk: io::Result<K>, b1: Seq<u8>, rv: io::Result<V>, b2: Seq<u8>)
+    requires decodes_to::<K>(b0, rk, b1), rk is Ok ==> decodes_to::<V>(b1, rv, b2)
+    ensures
+        (rk is Ok && rv is Ok) ==> decodes_to::<(K, V)>(b0, Ok((rk->Ok_0, rv->Ok_0)), b2),
+        (rk is Err || rv is Err) ==> forall|p: (K, V), tail: Seq<u8>| #![trigger p.bytes() + tail] b0 != p.bytes() + tail,
+{
+    broadcast use lemma_cat_assoc;
+    assert forall|p: (K, V), tail: Seq<u8>| #![trigger p.bytes() + tail] b0 == p.bytes() + tail implies
+        (rk matches Ok(k) && rv matches Ok(v) && (k, v).bytes() == p.bytes() && b2 == tail) by {
+        assert(p.bytes() + tail =~= p.0.bytes() + (p.1.bytes() + tail));
+        assert(rk is Ok && (rk->Ok_0).bytes() == p.0.bytes() && b1 == p.1.bytes() + tail);
+    }
+}
+/// what the input must look like at the head of an iteration, split into key image and the rest
+pub proof fn lemma_map_dec_peek<K: Wire, V: Wire>(before: Seq<u8>, len: usize, got: Seq<(K, V)>, rest: Seq<u8>)
+    requires seq_dec_inv::<(K, V)>(before, len, got, rest), got.len() < len
+    ensures forall|s: Seq<(K, V)>, tail: Seq<u8>| #![trigger seq_bytes(s) + tail] (before == seq_bytes(s) + tail && s.len() <= usize::MAX) ==>
+        rest == s[got.len() as int].0.bytes() + (s[got.len() as int].1.bytes() + (concat(s.skip(got.len() as int + 1)) + tail))
+{
+    broadcast use lemma_cat_assoc;
+    lemma_seq_dec_peek(before, len, got, rest);
+    assert forall|s: Seq<(K, V)>, tail: Seq<u8>| #![trigger seq_bytes(s) + tail] (before == seq_bytes(s) + tail && s.len() <= usize::MAX) implies
+        rest == s[got.len() as int].0.bytes() + (s[got.len() as int].1.bytes() + (concat(s.skip(got.len() as int + 1)) + tail)) by {
+        let x = s[got.len() as int];
+        assert(x.bytes() + (concat(s.skip(got.len() as int + 1)) + tail) =~= x.0.bytes() + (x.1.bytes() + (concat(s.skip(got.len() as int + 1)) + tail)));
+    }
+}
+
+//@ impl crates/serialize/src/decode.rs :: impl<K, V, S> Decode for HashMap<K, V, S> where K: Decode + Eq + Hash, V: Decode, S: BuildHasher + Default,
+//@ header-sub Decode for HashMap<K, V, S> => MapDecode<K, V> for HashMap<K, V, S>
+//@ extra
+    open spec fn mview(&self) -> Map<K, V> { self@ }
+    open spec fn hasher_ok() -> bool { builds_valid_hashers::<S>() }
+//@ member decode
+//@ head
+        broadcast use lemma_seq_bytes_as_usize, lemma_take0, lemma_skip0, lemma_cat_empty;
+        broadcast use group_hash_axioms;
+        let ghost before = decoder.rest();
+        let ghost mut got: Seq<(K, V)> = Seq::empty();
+//@ loop 0 iter __it
+//@ loop 0 inv
+            invariant
+                obeys_key_model::<K>(), builds_valid_hashers::<S>(),
+                before == old(decoder).rest(),
+                seq_dec_inv::<(K, V)>(before, len, got, decoder.rest()),
+                got.len() == __it.index@,
+                map@ == map_of(got),
+//@ loop 0 head
+            broadcast use lemma_seq_bytes_as_usize;
+            let ghost rest0 = decoder.rest();
+            let ghost got0 = got;
+            proof { lemma_map_dec_peek(before, len, got0, rest0); }
+//@ text-sub let value = V::decode(decoder, plugin, session)?; => let ghost rest1 = decoder.rest(); let value = V::decode(decoder, plugin, session)?; proof { lemma_pair_decodes::<K, V>(rest0, Ok(key), rest1, Ok(value), decoder.rest()); got = got0.push((key, value)); }
+//@ loop 0 tail
+            proof {
+                lemma_seq_dec_step::<(K, V)>(before, len, got0, rest0, Ok(got.last()), decoder.rest());
+                assert(got.drop_last() =~= got0);
+            }
+//@ loop 0 after
+        proof {
+            lemma_seq_dec_done::<(K, V)>(before, len, got, decoder.rest());
+            assert(map_of(got) == map@);
+        }
+//@ end
+
+
+// ---- the round trip of a hash map
+pub open spec fn wire_injective<T: Wire>() -> bool { forall|a: T, b: T| a.bytes() == b.bytes() ==> a == b }
+/// sequences of equal length with equal concatenated images are equal, element images being prefix-free and injective
+pub proof fn lemma_concat_injective<T: Decode>(a: Seq<T>, b: Seq<T>)
+    requires a.len() == b.len(), concat(a) == concat(b), wire_injective::<T>()
+    ensures a == b
+    decreases a.len()
+{
+    broadcast use lemma_cat_empty;
+    if a.len() > 0 {
+        T::prefix_free(&a[0], &b[0], concat(a.skip(1)), concat(b.skip(1)));
+        lemma_concat_injective(a.skip(1), b.skip(1));
+        assert(a =~= seq![a[0]] + a.skip(1));
+        assert(b =~= seq![b[0]] + b.skip(1));
+    } else {
+        assert(a =~= b);
+    }
+}
+pub proof fn lemma_seq_bytes_injective<T: Decode>(a: Seq<T>, b: Seq<T>)
+    requires seq_bytes(a) == seq_bytes(b), wire_injective::<T>()
+    ensures a == b
+{
+    broadcast use lemma_cat_empty;
+    lemma_leb_prefix_free(a.len(), b.len(), concat(a), concat(b));
+    lemma_concat_injective(a, b);
+}
+pub proof fn lemma_pair_wire_injective<K: Decode, V: Decode>()
+    requires wire_injective::<K>(), wire_injective::<V>()
+    ensures wire_injective::<(K, V)>()
+{
+    broadcast use lemma_cat_empty;
+    assert forall|a: (K, V), b: (K, V)| a.bytes() == b.bytes() implies a == b by {
+        K::prefix_free(&a.0, &b.0, a.1.bytes(), b.1.bytes());
+    }
+}
+/// inserting the entries of m in any duplicate-free enumeration of part of its keys builds m restricted to those keys
+pub proof fn lemma_map_of_entries<K, V>(m: Map<K, V>, ks: Seq<K>)
+    requires ks.no_duplicates(), forall|k: K| ks.contains(k) ==> m.contains_key(k)
+    ensures map_of(entries(m, ks)) =~= m.restrict(ks.to_set())
+    decreases ks.len()
+{
+    if ks.len() > 0 {
+        let ks0 = ks.drop_last();
+        assert(entries(m, ks).drop_last() =~= entries(m, ks0));
+        assert forall|k: K| ks0.contains(k) implies m.contains_key(k) by { assert(ks.contains(k)); }
+        lemma_map_of_entries(m, ks0);
+        assert(ks.contains(ks.last()));
+        assert(ks.to_set() =~= ks0.to_set().insert(ks.last())) by {
+            assert forall|k: K| ks.to_set().contains(k) <==> ks0.to_set().insert(ks.last()).contains(k) by {
+                if ks.contains(k) { let i = ks.index_of(k); if i < ks0.len() { assert(ks0[i] == k); } }
+                if ks0.contains(k) { let i = ks0.index_of(k); assert(ks[i] == k); }
+            }
+        }
+    } else {
+        assert(ks.to_set() =~= Set::<K>::empty());
+    }
+}
+/// ROUND TRIP: whatever enumeration `ks` the encoder used for a map with view m, a decoder result that satisfies the
+/// MapDecode contract on that image has view m (element images injective: proved per leaf type, structural otherwise)
+pub proof fn lemma_hashmap_roundtrip<K: Decode, V: Decode>(m: Map<K, V>, ks: Seq<K>, w: Map<K, V>)
+    requires
+        is_order(ks, m), wire_injective::<K>(), wire_injective::<V>(),
+        exists|g: Seq<(K, V)>| #[trigger] map_of(g) == w && seq_bytes(g) == seq_bytes(entries(m, ks)),
+    ensures w =~= m
+{
+    let g = choose|g: Seq<(K, V)>| #[trigger] map_of(g) == w && seq_bytes(g) == seq_bytes(entries(m, ks));
+    lemma_pair_wire_injective::<K, V>();
+    lemma_seq_bytes_injective::<(K, V)>(g, entries(m, ks));
+    lemma_map_of_entries(m, ks);
+    assert(m.restrict(ks.to_set()) =~= m);
+}
+
+
+// ---- HashSet: count + elements in iteration order (same scheme)
+pub open spec fn is_enum<T>(xs: Seq<T>, s: Set<T>) -> bool { xs.no_duplicates() && (forall|x: T| xs.contains(x) <==> s.contains(x)) }
+pub open spec fn set_decodes_to<T: Wire>(before: Seq<u8>, r: Option<Set<T>>, after: Seq<u8>) -> bool {
+    forall|s: Seq<T>, tail: Seq<u8>| #![trigger seq_bytes(s) + tail] (before == seq_bytes(s) + tail && s.len() <= usize::MAX) ==>
+        (r matches Some(w) && after == tail && exists|g: Seq<T>| #[trigger] g.to_set() == w && seq_bytes(g) == seq_bytes(s))
+}
+pub trait SetEncode<T: Wire> {
+    spec fn sview(&self) -> Set<T>;
+    spec fn hasher_ok() -> bool;
+    fn encode<E: Encoder + ?Sized>(&self, encoder: &mut E, plugin: &Plugin, session: &mut Session) -> (r: io::Result<()>)
+        requires obeys_key_model::<T>(), Self::hasher_ok()
+        ensures r is Ok ==> exists|xs: Seq<T>| #![trigger is_enum(xs, self.sview())] is_enum(xs, self.sview()) && xs.len() <= usize::MAX
+            && final(encoder).out() =~= old(encoder).out() + seq_bytes(xs);
+}
+pub trait SetDecode<T: Wire>: Sized {
+    spec fn sview(&self) -> Set<T>;
+    spec fn hasher_ok() -> bool;
+    fn decode<D: Decoder + ?Sized>(decoder: &mut D, plugin: &Plugin, session: &mut Session) -> (r: io::Result<Self>)
+        requires obeys_key_model::<T>(), Self::hasher_ok()
+        ensures set_decodes_to::<T>(old(decoder).rest(), match r { Ok(w) => Some(w.sview()), Err(_) => None }, final(decoder).rest());
+}
+pub assume_specification<T, S>[ HashSet::<T, S>::with_capacity_and_hasher ](capacity: usize, hasher: S) -> (r: HashSet<T, S>)
+    ensures r@ == Set::<T>::empty();
+
+//@ impl crates/serialize/src/encode.rs :: impl<T: Encode, S: BuildHasher> Encode for HashSet<T, S>
+//@ header-sub Encode for HashSet<T, S> => SetEncode<T> for HashSet<T, S>
+//@ extra
+    open spec fn sview(&self) -> Set<T> { self@ }
+    open spec fn hasher_ok() -> bool { builds_valid_hashers::<S>() }
+//@ member encode
+//@ head
+        broadcast use lemma_concat_take_step, lemma_take_all, lemma_cat_empty, lemma_cat_assoc;
+        broadcast use group_hash_axioms;
+        let ghost mut order: Seq<T> = Seq::empty();
+//@ loop 0 iter __it
+//@ loop 0 itercall
+//@ loop 0 inv
+            invariant
+                obeys_key_model::<T>(), builds_valid_hashers::<S>(),
+                __it.snapshot@.remaining().len() == self@.len(), self@.len() <= usize::MAX,
+                order.len() == __it.index@,
+                order =~= __it.snapshot@.remaining().unref().take(__it.index@ as int),
+                order.no_duplicates(),
+                forall|x: T| order.contains(x) ==> self@.contains(x),
+                encoder.out() =~= old(encoder).out() + leb(self@.len()) + concat(order),
+                __it.index@ == __it.snapshot@.remaining().len() ==> (forall|x: T| self@.contains(x) ==> order.contains(x)),
+//@ loop 0 head
+            let ghost order0 = order;
+            proof { order = order0.push(*item); }
+            proof {
+                let xs = __it.snapshot@.remaining().unref();
+                let i = __it.index@ as int;
+                assert(xs[i] == *item);
+                assert(xs.take(i + 1) =~= xs.take(i).push(xs[i]));
+                assert(xs.to_set().contains(xs[i]));
+                assert forall|j: int| 0 <= j < i implies order0[j] != *item by { assert(order0[j] == xs[j]); }
+                lemma_concat_push(order0, *item);
+                assert forall|x: T| i + 1 == xs.len() && self@.contains(x) implies order.contains(x) by {
+                    assert(xs.take(i + 1) =~= xs);
+                    assert(xs.to_set().contains(x));
+                }
+            }
+//@ loop 0 after
+        proof {
+            assert(is_enum(order, self.sview()) && order.len() == self@.len());
+            assert(encoder.out() =~= old(encoder).out() + seq_bytes(order));
+        }
+//@ end
+
+//@ impl crates/serialize/src/decode.rs :: impl<T, S> Decode for HashSet<T, S> where T: Decode + Eq + Hash, S: BuildHasher + Default,
+//@ header-sub Decode for HashSet<T, S> => SetDecode<T> for HashSet<T, S>
+//@ extra
+    open spec fn sview(&self) -> Set<T> { self@ }
+    open spec fn hasher_ok() -> bool { builds_valid_hashers::<S>() }
+//@ member decode
+//@ head
+        broadcast use lemma_seq_bytes_as_usize, lemma_take0, lemma_skip0, lemma_cat_empty;
+        broadcast use group_hash_axioms;
+        let ghost before = decoder.rest();
+        let ghost mut got: Seq<T> = Seq::empty();
+//@ loop 0 iter __it
+//@ loop 0 inv
+            invariant
+                obeys_key_model::<T>(), builds_valid_hashers::<S>(),
+                before == old(decoder).rest(),
+                seq_dec_inv::<T>(before, len, got, decoder.rest()),
+                got.len() == __it.index@,
+                set@ =~= got.to_set(),
+//@ loop 0 head
+            broadcast use lemma_seq_bytes_as_usize;
+            let ghost rest0 = decoder.rest();
+            let ghost got0 = got;
+            let ghost set0 = set@;
+            proof { lemma_seq_dec_peek(before, len, got0, rest0); }
+//@ loop 0 tail
+            proof {
+                // the element that was decoded and inserted (an unnamed temporary of the source statement)
+                let x = choose|x: T| set@ == set0.insert(x) && decodes_to::<T>(rest0, Ok(x), decoder.rest());
+                got = got0.push(x);
+            }
+            proof {
+                lemma_seq_dec_step::<T>(before, len, got0, rest0, Ok(got.last()), decoder.rest());
+                assert(got.to_set() =~= got0.to_set().insert(got.last())) by {
+                    assert forall|y: T| got.to_set().contains(y) <==> got0.to_set().insert(got.last()).contains(y) by {
+                        if got.contains(y) { let i = got.index_of(y); if i < got0.len() { assert(got0[i] == y); } }
+                        if got0.contains(y) { let i = got0.index_of(y); assert(got[i] == y); }
+                        if y == got.last() { assert(got[got0.len() as int] == y); }
+                    }
+                }
+            }
+//@ loop 0 after
+        proof {
+            lemma_seq_dec_done::<T>(before, len, got, decoder.rest());
+            assert(got.to_set() =~= set@);
+        }
+//@ end
+
+/// ROUND TRIP of a hash set
+pub proof fn lemma_hashset_roundtrip<T: Decode>(m: Set<T>, xs: Seq<T>, w: Set<T>)
+    requires
+        is_enum(xs, m), wire_injective::<T>(),
+        exists|g: Seq<T>| #[trigger] g.to_set() == w && seq_bytes(g) == seq_bytes(xs),
+    ensures w =~= m
+{
+    let g = choose|g: Seq<T>| #[trigger] g.to_set() == w && seq_bytes(g) == seq_bytes(xs);
+    lemma_seq_bytes_injective::<T>(g, xs);
+    assert forall|x: T| xs.to_set().contains(x) <==> m.contains(x) by { assert(xs.to_set().contains(x) <==> xs.contains(x)); }
+}
+
 } // verus!
 fn main() {}
